@@ -481,3 +481,309 @@ Proof.
   eexists. split; [vm_compute; reflexivity|]. split; [reflexivity|].
   unfold flat_equiv. cbn. repeat split; apply Permutation_refl.
 Qed.
+
+(** * Building again from a built block: Repeat(block, []) and Merge([block]) *)
+Close Scope string_scope.
+
+(** the constraints of a built block as a later constructor sees them ([orig_constraints], whose
+    [within_block] has been initialised with the block's geometry [g]) *)
+Definition reinit (g : geometry) (c : iconstraint) : iconstraint :=
+  match c with ICon c => ICon (init_wb g c) | c => c end.
+
+Definition all_level_constraints (cs : list iconstraint) : Prop :=
+  forall c, In c cs -> exists c0, c = ICon c0.
+
+(** the arguments a constructor passes on when it re-creates the block [fb] built from [ci]:
+    filtered crossings, all sustain counts, the final weights, the initialised constraints, REPEAT
+    mode, alignment [al] *)
+Definition again (ci : create_input) (fb : flat) (al : alignment) : create_input :=
+  {| ci_design := ci_design ci; ci_crossings := st_crossings ci; ci_sustains := ci_sustains ci;
+     ci_weights := fl_weights fb;
+     ci_constraints := map (reinit (st_geometry ci (fl_preambles fb) (Z.of_nat (fl_trials fb)))) (ci_constraints ci);
+     ci_rcc := ci_rcc ci; ci_mode := MRepeat; ci_alignment := al;
+     ci_exclusions := ci_exclusions ci; ci_derivations := ci_derivations ci;
+     ci_excluded_derived := ci_excluded_derived ci; ci_errors_fail := ci_errors_fail ci |}.
+
+Definition with_alignment (fb : flat) (al : alignment) : flat :=
+  mkflat (fl_design fb) (fl_act fb) (fl_crossings fb) (fl_sustains fb) (fl_weights fb) (fl_sizes fb) (fl_preambles fb) al
+         (fl_alignment_preamble fb) (fl_min_trials fb) (fl_trials fb) (fl_rcc fb) (fl_exclude fb) (fl_excluded_derived fb)
+         (fl_constraints fb) (fl_errors_fail fb).
+
+Lemma init_wb_idem : forall g c, init_wb g (init_wb g c) = init_wb g c.
+Proof. intros g c. destruct c; try reflexivity; destruct wb; reflexivity. Qed.
+
+Lemma constraint_uses_init : forall d g c f, constraint_uses d (init_wb g c) f = constraint_uses d c f.
+Proof. intros d g c f. destruct c; try reflexivity; destruct wb; reflexivity. Qed.
+
+Lemma st_exclude_init : forall g l, st_exclude (map (init_wb g) l) = st_exclude l.
+Proof.
+  intros g l. unfold st_exclude. induction l as [|c l IH]; [reflexivity|]. cbn [map flat_map]. rewrite IH.
+  f_equal. destruct c; try reflexivity; destruct wb; reflexivity.
+Qed.
+
+Lemma min_fold_init : forall g l m, fold_left min_step (map (init_wb g) l) m = fold_left min_step l m.
+Proof.
+  intros g l. induction l as [|c l IH]; intro m; [reflexivity|]. cbn [map fold_left]. rewrite IH. f_equal.
+  destruct c; try reflexivity; destruct wb; reflexivity.
+Qed.
+
+Lemma desugar_reinit : forall d g cs,
+  all_level_constraints cs ->
+  flat_map (desugar_constraint d) (map (reinit g) cs) = map (init_wb g) (flat_map (desugar_constraint d) cs).
+Proof.
+  intros d g cs. induction cs as [|c cs IH]; intro Hall; [reflexivity|].
+  cbn [map flat_map]. rewrite map_app, IH by (intros c' Hc'; apply Hall; right; exact Hc').
+  destruct (Hall c (or_introl eq_refl)) as [c0 ->]. reflexivity.
+Qed.
+
+Lemma st_cons_again : forall ci fb al,
+  all_level_constraints (ci_constraints ci) ->
+  st_cons (again ci fb al) = map (init_wb (st_geometry ci (fl_preambles fb) (Z.of_nat (fl_trials fb)))) (st_cons ci).
+Proof.
+  intros ci fb al Hall. unfold st_cons. cbn [again ci_design ci_constraints ci_sustains].
+  rewrite desugar_reinit by exact Hall. rewrite !map_app. cbn [map init_wb]. f_equal. f_equal.
+  destruct (existsb _ (ci_sustains ci)); reflexivity.
+Qed.
+
+Lemma st_crossings_again : forall ci fb al, st_crossings (again ci fb al) = st_crossings ci.
+Proof. intros. unfold st_crossings. cbn [again ci_crossings]. apply filter_nonempty_idem. Qed.
+
+Lemma existsb_map_ext : forall {A B} (h : A -> B) (P : B -> bool) (Q : A -> bool) l,
+  (forall x, P (h x) = Q x) -> existsb P (map h l) = existsb Q l.
+Proof. intros A B h P Q l Hx. induction l as [|x l IH]; [reflexivity|]. cbn. rewrite Hx, IH. reflexivity. Qed.
+
+Lemma st_act_again : forall ci fb al, all_level_constraints (ci_constraints ci) -> st_act (again ci fb al) = st_act ci.
+Proof.
+  intros ci fb al Hall. unfold st_act. rewrite st_crossings_again, st_cons_again by exact Hall.
+  cbn [again ci_design]. apply filter_ext. intro f. f_equal. unfold implied.
+  destruct (nth_error (ci_design ci) f) as [fd|]; [|reflexivity]. destruct (ff_window fd); [|reflexivity].
+  f_equal. f_equal. apply existsb_map_ext. intro c. apply constraint_uses_init.
+Qed.
+
+(** the trial arithmetic does not distinguish PARALLEL_START from EQUAL_PREAMBLE *)
+Definition trial_fields_eq' (x y : flat) : Prop :=
+  fl_design x = fl_design y /\ fl_crossings x = fl_crossings y /\ fl_sizes x = fl_sizes y /\
+  fl_alignment x <> PostPreamble /\ fl_alignment y <> PostPreamble /\ (forall f, sustain_of x f = sustain_of y f).
+
+Lemma tr_loop_ext0 : forall x y f size fuel trial counter,
+  fl_design x = fl_design y -> (forall g, sustain_of x g = sustain_of y g) ->
+  tr_loop x fuel f size trial counter = tr_loop y fuel f size trial counter.
+Proof.
+  intros x y f size fuel. induction fuel as [|fuel IH]; intros trial counter Hd Hs; [reflexivity|].
+  cbn [tr_loop].
+  assert (E : applies_at x f (Datatypes.S trial) = applies_at y f (Datatypes.S trial)).
+  { unfold applies_at, applies_to_trial, factor_at, sustain. rewrite Hd, Hs. reflexivity. }
+  rewrite E, (IH _ _ Hd Hs). reflexivity.
+Qed.
+
+Lemma tfe'_required : forall x y f size, trial_fields_eq' x y -> trials_required x f size = trials_required y f size.
+Proof.
+  intros x y f size [Hd [Hc [Hz [_ [_ Hs]]]]]. unfold trials_required, tr_fuel, fstart, fstride, factor_at, sustain.
+  rewrite Hd, Hs. destruct (sustain_of y f =? 0); [reflexivity|]. apply tr_loop_ext0; assumption.
+Qed.
+
+Lemma tfe'_one : forall x y c size, trial_fields_eq' x y -> trials_for_one_crossing x c size = trials_for_one_crossing y c size.
+Proof. intros x y c size Hxy. unfold trials_for_one_crossing. f_equal. f_equal. apply map_ext. intro f. apply tfe'_required. exact Hxy. Qed.
+
+Lemma tfe'_crossings : forall x y, trial_fields_eq' x y -> trials_for_crossings x = trials_for_crossings y.
+Proof.
+  intros x y Hxy. pose proof Hxy as [Hd [Hc [Hz [Hax [Hay Hs]]]]]. unfold trials_for_crossings. rewrite Hc, Hz.
+  destruct (fl_alignment x); [congruence| |]; destruct (fl_alignment y); try congruence;
+    f_equal; f_equal; apply map_ext; intro c; apply tfe'_one; exact Hxy.
+Qed.
+
+Lemma tfe'_preambles : forall x y, trial_fields_eq' x y -> model_preambles x = model_preambles y.
+Proof.
+  intros x y Hxy. pose proof Hxy as [Hd [Hc [Hz _]]]. unfold model_preambles. rewrite Hc, Hz.
+  f_equal. apply map_ext. intro c. rewrite (tfe'_one x y _ _ Hxy). reflexivity.
+Qed.
+
+Lemma sustain_of_again : forall ci fb al s p s' p' f,
+  sustain_of (st_flat (again ci fb al) s p) f = sustain_of (st_flat ci s' p') f.
+Proof.
+  intros. unfold sustain_of. cbn [st_flat mkflat fl_crossings fl_sustains]. rewrite st_crossings_again. reflexivity.
+Qed.
+
+Lemma st_alpre_again : forall ci fb al, st_alpre (again ci fb al) = st_alpre ci.
+Proof. reflexivity. Qed.
+
+Lemma st_sizes_again : forall ci fb al, st_sizes (again ci fb al) = st_sizes ci.
+Proof.
+  intros ci fb al. unfold st_sizes. rewrite st_crossings_again. cbn [again ci_exclusions].
+  apply map_ext. intros [c e]. cbn [fst snd].
+  replace (crossing_size_no_excl (st_flat (again ci fb al) [] []) c) with (crossing_size_no_excl (st_flat ci [] []) c)
+    by (apply crossing_size_ext; reflexivity).
+  f_equal. destruct c; [reflexivity|]. apply sustain_of_again.
+Qed.
+
+Lemma tfe'_again : forall ci fb al s p p',
+  ci_alignment ci <> PostPreamble -> al <> PostPreamble ->
+  trial_fields_eq' (st_flat (again ci fb al) s p) (st_flat ci s p').
+Proof.
+  intros ci fb al s p p' H1 H2. unfold trial_fields_eq'. cbn [st_flat mkflat fl_design fl_crossings fl_sizes fl_alignment].
+  rewrite st_crossings_again. cbn [again ci_design ci_alignment]. repeat split; try assumption.
+  intro f. apply sustain_of_again.
+Qed.
+
+Lemma to_nat_zs : forall l, map Z.to_nat (zs_of l) = l.
+Proof. intro l. unfold zs_of. rewrite map_map. rewrite <- (map_id l) at 2. apply map_ext. intro n. apply Nat2Z.id. Qed.
+
+(** re-creating a built block with its own (filtered) crossings, its final weights in REPEAT mode and
+    its initialised constraints gives the same flat record, for any non-POST alignment [al] that the
+    EQUAL_PREAMBLE check admits (the record then carries [al]) *)
+Theorem create_again : forall ci fb al,
+  create_flat ci = FOk fb -> all_level_constraints (ci_constraints ci) ->
+  ci_alignment ci <> PostPreamble -> al <> PostPreamble ->
+  (al = EqualPreamble -> all_eq (fl_preambles fb) = true) ->
+  create_flat (again ci fb al) = FOk (with_alignment fb al).
+Proof.
+  intros ci fb al Hc Hall Ha1 Ha2 Heq.
+  unfold create_flat in Hc.
+  destruct (needs_desugar (ci_design ci) (st_crossings ci)) eqn:Hnd; [discriminate|].
+  destruct (model_preambles (st_flat ci (st_sizes ci) [])) as [pres|] eqn:Hp; [|discriminate].
+  destruct (match ci_alignment ci with EqualPreamble => negb (all_eq pres) | _ => false end) eqn:He; [discriminate|].
+  destruct (model_trials (st_flat ci (st_sizes ci) pres)) as [T|] eqn:HT; [|discriminate].
+  destruct (model_min_trials (st_flat ci (st_sizes ci) pres)) as [m|] eqn:Hm; [|discriminate].
+  destruct (model_weights (st_flat ci (st_sizes ci) pres) (ci_mode ci) T (zs_of (ci_weights ci))) as [ws| | |] eqn:Hw;
+    try discriminate.
+  injection Hc as Hfb.
+  assert (HT1 : (1 <= T)%Z).
+  { destruct (model_trials_ge_min _ _ HT) as [_ [_ [t [_ [_ H1]]]]]. exact H1. }
+  (* the fields of [fb] that [again] reads *)
+  assert (Hpres : fl_preambles fb = pres) by (rewrite <- Hfb; reflexivity).
+  assert (Htr : fl_trials fb = Z.to_nat T) by (rewrite <- Hfb; reflexivity).
+  assert (Hwts : fl_weights fb = map Z.to_nat ws) by (rewrite <- Hfb; reflexivity).
+  set (g := st_geometry ci (fl_preambles fb) (Z.of_nat (fl_trials fb))).
+  assert (Hg : g = st_geometry ci pres T) by (unfold g; rewrite Hpres, Htr, Z2Nat.id by lia; reflexivity).
+  unfold create_flat. rewrite st_crossings_again, st_sizes_again.
+  change (ci_design (again ci fb al)) with (ci_design ci). rewrite Hnd.
+  rewrite (tfe'_preambles _ _ (tfe'_again ci fb al (st_sizes ci) [] [] Ha1 Ha2)), Hp.
+  change (ci_alignment (again ci fb al)) with al. change (ci_mode (again ci fb al)) with MRepeat.
+  change (ci_weights (again ci fb al)) with (fl_weights fb). change (ci_rcc (again ci fb al)) with (ci_rcc ci).
+  change (ci_sustains (again ci fb al)) with (ci_sustains ci).
+  change (ci_excluded_derived (again ci fb al)) with (ci_excluded_derived ci).
+  change (ci_derivations (again ci fb al)) with (ci_derivations ci).
+  change (ci_errors_fail (again ci fb al)) with (ci_errors_fail ci).
+  assert (Hchk : match al with EqualPreamble => negb (all_eq pres) | _ => false end = false).
+  { destruct al; try reflexivity. rewrite <- Hpres, (Heq eq_refl). reflexivity. }
+  rewrite Hchk.
+  (* trials and min_trials *)
+  assert (Hmin' : model_min_trials (st_flat (again ci fb al) (st_sizes ci) pres) = Some m).
+  { rewrite <- Hm. unfold model_min_trials. rewrite !min_trials_raw_eq.
+    cbn [st_flat mkflat fl_constraints]. rewrite st_cons_again by exact Hall. rewrite min_fold_init.
+    unfold round_min_trials. reflexivity. }
+  assert (HT' : model_trials (st_flat (again ci fb al) (st_sizes ci) pres) = Some T).
+  { rewrite <- HT. unfold model_trials. rewrite Hmin', Hm.
+    rewrite (tfe'_crossings _ _ (tfe'_again ci fb al (st_sizes ci) pres pres Ha1 Ha2)). reflexivity. }
+  rewrite HT', Hmin'. cbn [model_weights].
+  rewrite Hwts, to_nat_zs.
+  rewrite st_act_again by exact Hall. rewrite st_cons_again by exact Hall. fold g.
+  rewrite st_exclude_init.
+  assert (Hg' : st_geometry (again ci fb al) pres T = g).
+  { rewrite Hg. unfold st_geometry. rewrite st_crossings_again.
+    change (ci_alignment (again ci fb al)) with al. change (ci_sustains (again ci fb al)) with (ci_sustains ci).
+    rewrite st_alpre_again. destruct (st_crossings ci); [reflexivity|].
+    destruct al; [congruence| |]; destruct (ci_alignment ci); try congruence; reflexivity. }
+  rewrite Hg'. rewrite map_map. rewrite (map_ext _ (init_wb g) (fun c => init_wb_idem g c)).
+  f_equal. rewrite <- Hfb. unfold with_alignment. cbn [mkflat fl_design fl_act fl_crossings fl_sustains fl_weights fl_sizes
+    fl_preambles fl_alignment_preamble fl_min_trials fl_trials fl_rcc fl_exclude fl_excluded_derived fl_constraints fl_errors_fail].
+  rewrite <- Hg. reflexivity.
+Qed.
+
+Lemma create_flat_equal_preamble : forall ci fb,
+  create_flat ci = FOk fb -> ci_alignment ci = EqualPreamble -> all_eq (fl_preambles fb) = true.
+Proof.
+  intros ci fb Hc Hal. unfold create_flat in Hc.
+  destruct (needs_desugar _ _); [discriminate|].
+  destruct (model_preambles _) as [pres|]; [|discriminate]. rewrite Hal in Hc.
+  destruct (all_eq pres) eqn:E; cbn [negb] in Hc; [|discriminate].
+  destruct (model_trials _); [|discriminate]. destruct (model_min_trials _); [|discriminate].
+  destruct (model_weights _ _ _ _); try discriminate. injection Hc as <-. exact E.
+Qed.
+
+Lemma create_flat_alignment : forall ci fb, create_flat ci = FOk fb -> fl_alignment fb = ci_alignment ci.
+Proof.
+  intros ci fb Hc. unfold create_flat in Hc.
+  destruct (needs_desugar _ _); [discriminate|].
+  destruct (model_preambles _) as [pres|]; [|discriminate].
+  destruct (match ci_alignment ci with EqualPreamble => _ | _ => _ end); [discriminate|].
+  destruct (model_trials _); [|discriminate]. destruct (model_min_trials _); [|discriminate].
+  destruct (model_weights _ _ _ _); try discriminate. injection Hc as <-. reflexivity.
+Qed.
+
+Lemma with_alignment_same : forall fb, with_alignment fb (fl_alignment fb) = fb.
+Proof. intros []. reflexivity. Qed.
+
+(** Repeat(block, []): the block's original design and crossings, all its sustain counts, its final
+    weights, its constraints, REPEAT mode, EQUAL_PREAMBLE - the same flat record (carrying
+    EQUAL_PREAMBLE), for a block that is not aligned POST_PREAMBLE and has equal preamble sizes
+    (otherwise Repeat raises, as documented) *)
+Theorem repeat_nil_flat : forall ci fb,
+  create_flat ci = FOk fb -> all_level_constraints (ci_constraints ci) ->
+  ci_alignment ci <> PostPreamble -> all_eq (fl_preambles fb) = true ->
+  create_flat (again ci fb EqualPreamble) = FOk (with_alignment fb EqualPreamble).
+Proof. intros ci fb Hc Hall Ha Heq. apply create_again; try assumption; [discriminate | intros _; exact Heq]. Qed.
+
+(** Merge([block]) (REPEAT mode, the block's alignment): the block's crossings with the sustain counts
+    and weights of those crossings only *)
+Definition merge_again (ci : create_input) (fb : flat) : create_input :=
+  let k := List.length (st_crossings ci) in
+  let a := again ci fb (ci_alignment ci) in
+  {| ci_design := ci_design a; ci_crossings := ci_crossings a; ci_sustains := firstn k (ci_sustains a);
+     ci_weights := firstn k (ci_weights a); ci_constraints := ci_constraints a; ci_rcc := ci_rcc a; ci_mode := ci_mode a;
+     ci_alignment := ci_alignment a; ci_exclusions := ci_exclusions a; ci_derivations := ci_derivations a;
+     ci_excluded_derived := ci_excluded_derived a; ci_errors_fail := ci_errors_fail a |}.
+
+Lemma reinit_positive : forall g cs, min_trials_positive cs -> min_trials_positive (map (reinit g) cs).
+Proof.
+  intros g cs Hpos n Hin. apply in_map_iff in Hin. destruct Hin as [c [E Hc]].
+  destruct c as [c0|]; cbn in E; [|discriminate]. inversion E as [E0].
+  destruct c0; try discriminate; try (destruct wb; discriminate). cbn in E0. inversion E0; subst. apply Hpos. exact Hc.
+Qed.
+
+Lemma st_crossings_merge_again : forall ci fb, st_crossings (merge_again ci fb) = st_crossings ci.
+Proof. intros. unfold st_crossings, merge_again. cbn [ci_crossings again]. apply filter_nonempty_idem. Qed.
+
+Theorem merge_singleton_flat : forall ci fb,
+  create_flat ci = FOk fb -> all_level_constraints (ci_constraints ci) -> min_trials_positive (ci_constraints ci) ->
+  ci_alignment ci <> PostPreamble ->
+  Forall (fun n => n = 1) (skipn (List.length (st_crossings ci)) (ci_sustains ci)) ->
+  exists fb', create_flat (merge_again ci fb) = FOk fb' /\ flat_equiv fb fb'.
+Proof.
+  intros ci fb Hc Hall Hpos Ha Hones.
+  assert (Hag : create_flat (again ci fb (ci_alignment ci)) = FOk fb).
+  { rewrite (create_again ci fb (ci_alignment ci) Hc Hall Ha Ha).
+    - rewrite <- (create_flat_alignment ci fb Hc). rewrite with_alignment_same. reflexivity.
+    - intro E. apply (create_flat_equal_preamble ci fb Hc E). }
+  assert (Heqv : input_equiv (again ci fb (ci_alignment ci)) (merge_again ci fb)).
+  { unfold input_equiv. rewrite st_crossings_again, st_crossings_merge_again.
+    unfold merge_again.
+    cbn [ci_design ci_sustains ci_weights ci_constraints ci_rcc ci_mode ci_alignment ci_exclusions ci_derivations
+         ci_excluded_derived ci_errors_fail].
+    rewrite !firstn_firstn, !Nat.min_id.
+    repeat split; try reflexivity; try exact Hones;
+      try (rewrite skipn_firstn_comm, Nat.sub_diag; constructor);
+      try (apply reinit_positive; exact Hpos). }
+  pose proof (create_flat_respects _ _ Heqv) as E. rewrite Hag in E.
+  destruct (create_flat (merge_again ci fb)) as [fb'|e]; [|contradiction]. exists fb'. split; [reflexivity | exact E].
+Qed.
+
+(** Example: MultiCrossBlock([A,B], [[A],[B]], [MinimumTrials(3), AtMostKInARow(1,(A,a0))], mode=REPEAT,
+    alignment=PARALLEL_START) built, then Repeat(block, []) and Merge([block]) *)
+Definition ex_block_input : create_input :=
+  {| ci_design := [ex_fac "A" "a0" "a1"; ex_fac "B" "b0" "b1"]; ci_crossings := [[0]; [1]];
+     ci_sustains := [1; 1]; ci_weights := [1; 1];
+     ci_constraints := [ICon (FMinimumTrials 3); ICon (FAtMost 1 0 0 None)];
+     ci_rcc := true; ci_mode := MRepeat; ci_alignment := ParallelStart;
+     ci_exclusions := [0; 0]; ci_derivations := []; ci_excluded_derived := []; ci_errors_fail := false |}.
+
+Lemma ex_block_again :
+  exists fb, create_flat ex_block_input = FOk fb /\ fl_trials fb = 3 /\ fl_alignment fb = ParallelStart /\
+    all_level_constraints (ci_constraints ex_block_input) /\ all_eq (fl_preambles fb) = true /\
+    create_flat (again ex_block_input fb EqualPreamble) = FOk (with_alignment fb EqualPreamble) /\
+    create_flat (merge_again ex_block_input fb) = FOk fb.
+Proof.
+  eexists. split; [vm_compute; reflexivity|]. split; [reflexivity|]. split; [reflexivity|]. split.
+  - intros c [<-|[<-|[]]]; eexists; reflexivity.
+  - split; [reflexivity|]. split; vm_compute; reflexivity.
+Qed.
